@@ -45,10 +45,12 @@ Alts(V, L) == [credit : Credits, len : L, vals : V]
 \* the alternative space depends on the number of alternatives n (wide spaces for short listings)
 Space(n) ==
   IF Part = "table" THEN
-       (IF Size = "quick" THEN (IF n <= 2 THEN Alts(ValsWide, Lens) ELSE Alts(ValsMid, Lens))
-        ELSE (IF n <= 2 THEN Alts(ValsWide, Lens) ELSE IF n = 3 THEN Alts(ValsWide \ Triples, Lens) ELSE Alts(ValsNarrow, Lens)))
-  ELSE (IF Size = "quick" THEN Alts(RealMid, Lens)
-        ELSE (IF n <= 2 THEN Alts(RealWide, Lens) ELSE Alts(ValsNarrow, {0, 3})))
+       (IF n <= 2 THEN Alts(ValsWide, Lens)
+        ELSE IF Size = "quick" THEN Alts(ValsMid \ {<<"hit", "part0">>}, Lens)
+        ELSE IF n = 3 THEN Alts(ValsMid \cup {<<"part0">>, <<"foreign">>, <<"hit", "lib">>}, Lens)
+        ELSE Alts(ValsNarrow, {0, 3}))
+  ELSE (IF n <= 2 THEN (IF Size = "quick" THEN Alts(RealMid, Lens) ELSE Alts(RealWide, Lens))
+        ELSE Alts(ValsNarrow, {0, 3}))
 MaxAlts == IF Part = "table" THEN (IF Size = "quick" THEN 3 ELSE 4) ELSE (IF Size = "quick" THEN 2 ELSE 3)
 
 Rest(S, k) == IF k = 0 THEN {<<>>}
@@ -85,6 +87,4 @@ LawDuplicateI == Both(LawDuplicate)
 LawSingleI == Both(LawSingle)
 LawCodeRefinesI == Both(LawCodeRefines)
 LawCodeCallsI == Both(LawCodeCalls)
-\* the dumped outcome agrees with a fresh evaluation (guards the two-level enumeration itself)
-LawOutIsSpec == IsCase => out = OutOf(A)
 =============================================================================
